@@ -483,4 +483,24 @@ theorem linExp_PW {bm : BoundsMap (Ext K)} {e : Exp (Ext K)} {q : Req} (h : PW b
     rw [hbl]
     exact linList_succeeds _ ih s1 (hn.grow g1) (hb.grow g1)
 
+/-! ### non-vacuity -/
+
+def exPWBounds : BoundsMap (Ext K) := [("x", ⟨.fin (-3), .fin 3⟩)]
+def exPWState : St (Ext K) :=
+  { queue := [], domain := [{ name := "x", ty := .real (.fin (-3)) (.fin 3), usage := 1 }], bounds := exPWBounds }
+
+/-- `|x|` with `x ∈ [−3, 3]` at requirement `exact` needs the big-M gadget and is in the fragment. -/
+theorem exPW_pw : PW (exPWBounds : BoundsMap (Ext K)) (.abs (.var "x")) .exact := by
+  refine PW.absBigM (by intro x hx; simp [varsOf] at hx; subst hx; exact (by unfold SrcName; decide)) ?_ ?_ (Or.inr ⟨rfl, rfl⟩) (PW.var _ _)
+  · simp [exPWBounds, boundsOf, lookupB, Arith.ge, Arith.le, Ext.le, Arith.zero]
+  · simp [exPWBounds, boundsOf, lookupB, Arith.le, Ext.le, Arith.zero]
+
+theorem exPW_names : NamesOK (exPWState : St (Ext K)) := by
+  intro x hx
+  simp [namesOf, exPWState] at hx
+  subst hx
+  exact Or.inl (by unfold SrcName; decide)
+
+theorem exPW_agree : BAgree (exPWBounds : BoundsMap (Ext K)) exPWState := fun _ _ => rfl
+
 end Rooc.LinP
